@@ -99,6 +99,9 @@ def _abs(ctx, v):
 
 def scalar_abs(ctx, v):
     if isinstance(v, S.Cx):
+        if v.abs_hint is not None:
+            ctx.assumptions.add('identity:|z**2| = |z|**2')
+            return v.abs_hint
         return sqrt_scalar(ctx, S.cabs2(v))
     return S.abs_(v)
 
@@ -308,6 +311,10 @@ def deepcopy_value(ctx, v, memo):
         return out
     elif isinstance(v, tuple):
         out = tuple(deepcopy_value(ctx, x, memo) for x in v)
+    elif isinstance(v, dict):
+        out = {k: deepcopy_value(ctx, x, memo) for k, x in v.items()}
+    elif isinstance(v, Seq):
+        out = v
     else:
         out = v
     memo[id(v)] = out
